@@ -482,6 +482,10 @@ fn css_identifier(id: &str) -> String {
     for (idx, ch) in id.chars().enumerate() {
         match ch {
             '0'..='9' if idx == 0 => result.push_str(&format!("\\{:x} ", ch as u32)),
+            // (nor with a hyphen which a digit, or nothing, follows)
+            '-' if idx == 0 && id[1..].chars().next().is_none_or(|c| c.is_ascii_digit()) => {
+                result.push_str("\\-")
+            }
             'a'..='z' | 'A'..='Z' | '0'..='9' | '-' | '_' => result.push(ch),
             ch if !ch.is_ascii() => result.push(ch),
             ch if ch.is_ascii_control() || ch == ' ' => {
